@@ -3,6 +3,7 @@
 // instruction paths (mov #imm / push / pop).
 #pragma once
 #include "c03_alu.h"
+#include "c10_addr.h"
 
 namespace c20 {
 using namespace isa;
@@ -397,6 +398,77 @@ struct Engine {
                 }
             }
     }
+
+    // (6) the step codes of the ar/arp words mean to the interpreter what the annotated disassembler calls them: an instruction that steps
+    // a register through an ar/arp step slot holding code k (0 none, 1 +1, 2 -1, 3 +s, 4 +2, 5 -2) leaves the register where the directly
+    // spelled instruction (modr rN with that step) leaves it - linear and modulo addressing, both compatibility modes
+    void StepMeaning(u16 op, const DecodeInfo& d) {
+        bool has = false;
+        for (int i = 0; i < d.nargs; ++i) {
+            std::string t = d.arg_types[i];
+            has |= t == "ArRn1" || t == "ArRn2" || t == "ArpRn1" || t == "ArpRn2";
+        }
+        if (!has)
+            return;
+        for (int cmd = 0; cmd < 2; ++cmd)
+            for (int cfg = 0; cfg < 9; ++cfg)
+                for (int k = 0; k < 6; ++k) {
+                    VState s = bases[0].second;
+                    s.pc = 0x1000, s.sp = 0x0800, s.cmd = (u16)cmd, s.stp16 = 0;
+                    const u16 mod = cfg == 0 ? 0 : cfg <= 4 ? 5 : 0x1F;
+                    const int pos = cfg == 0 ? 0 : (cfg - 1) & 3;
+                    s.modi = s.modj = mod, s.stepi = 3, s.stepj = 0x7D;
+                    for (int r = 0; r < 8; ++r) {
+                        u16 b = (u16)((r < 4 ? 0x6400 : 0xCC00) + 0x40 * (r & 3));
+                        s.r[r] = (u16)(b + (pos == 0 ? 0 : pos == 1 ? 1 : pos == 2 ? mod : mod - 1));
+                        s.m[r] = cfg != 0, s.br[r] = 0;
+                    }
+                    for (int i = 0; i < 4; ++i)
+                        s.arstep[i] = s.arpstepi[i] = s.arpstepj[i] = (u16)k, s.aroffset[i] = s.arpoffseti[i] = s.arpoffsetj[i] = 0;
+                    const u16 rn[4] = {0, 5, 2, 7};
+                    for (int i = 0; i < 4; ++i)
+                        s.arrn[i] = rn[i], s.arprni[i] = (u16)i, s.arprnj[i] = (u16)((i + 1) & 3);
+                    // through the words, as a program would configure them
+                    for (int w = 12; w < 18; ++w) {
+                        u16 cur = impl.api->pseudo_get(&s, w);
+                        impl.api->pseudo_set(&s, w, cur);
+                    }
+                    std::vector<c10::Engine::Use> uses;
+                    if (!c10::Engine::UsesOf(d, s, uses))
+                        return;
+                    if (uses.size() == 2 && uses[0].unit == uses[1].unit)
+                        return;
+                    u16 w2[2] = {op, 0x0010};
+                    VState out;
+                    RunResult rr;
+                    impl.api->run(impl.m, &s, w2, 2, 1, &out, &rr);
+                    ++res.evaluations, ++res.transitions, ++res.traces_validated;
+                    if (rr.outcome != OUT_OK)
+                        continue;
+                    for (auto& u : uses) {
+                        if (u.code != k)
+                            continue; // a form that does not take this unit's step from the slot
+                        u16 direct = k < 4 ? (u16)((u.dmod ? 0x00A0 : 0x0080) | u.unit | (k << 3)) : k == 4 ? (u16)((u.dmod ? 0x4998 : 0x4990) | u.unit) : (u16)((u.dmod ? 0x5DA8 : 0x5DA0) | u.unit);
+                        u16 w3[2] = {direct, 0};
+                        VState od;
+                        RunResult rd;
+                        impl.api->run(impl.m, &s, w3, 2, 1, &od, &rd);
+                        ++res.evaluations, ++res.transitions, ++res.traces_validated;
+                        if (rd.outcome != OUT_OK)
+                            continue;
+                        digests.insert(Mix(op * 64 + k * 8 + u.unit) ^ od.r[u.unit]);
+                        if (od.r[u.unit] != out.r[u.unit]) {
+                            static const char* sn[] = {"no step", "+1", "-1", "+s", "+2", "-2"};
+                            Fail(Fmt("meaning:step:%s:code%d:%s", d.name, k, mod ? "modulo" : "linear"),
+                                 Fmt("opcode %04X (%s), step code %d ('%s') in the ar/arp word, cmd=%d mod=%03X r%d=%04X%s: the instruction leaves r%d=%04X, the directly spelled "
+                                     "modr r%d %s (opcode %04X) leaves %04X", op, d.name, k, sn[k], cmd, mod, u.unit, s.r[u.unit], u.dmod ? " (modulo disabled by the form)" : "", u.unit,
+                                     out.r[u.unit], u.unit, sn[k], direct, od.r[u.unit]),
+                                 Fmt("c20 stp %u", op));
+                            return;
+                        }
+                    }
+                }
+    }
 };
 
 inline int RunReplay(const std::string& r, Result& res) {
@@ -407,6 +479,15 @@ inline int RunReplay(const std::string& r, Result& res) {
     {
         unsigned op;
         int a, b;
+        if (std::sscanf(r.c_str(), "c20 stp %u", &op) == 1) {
+            Engine e(res);
+            DecodeInfo d;
+            e.impl.api->decode((u16)op, &d);
+            e.StepMeaning((u16)op, d);
+            for (auto& x : res.violations)
+                quiet.Say(Fmt("  %s\n    %s\n", x.key.c_str(), x.text.c_str()));
+            return res.violations.empty() ? 0 : 1;
+        }
         if (std::sscanf(r.c_str(), "c20 off %u %d %d", &op, &a, &b) == 3) {
             Engine e(res);
             DecodeInfo d;
@@ -519,8 +600,10 @@ inline void Run(const Args& args, Result& res) {
                 for (u32 op = idx; op < 0x10000; op += cnt) {
                     DecodeInfo d;
                     e.impl.api->decode((u16)op, &d);
-                    if (d.rows_matching == 1)
+                    if (d.rows_matching == 1) {
                         e.OffsetMeaning((u16)op, d);
+                        e.StepMeaning((u16)op, d);
+                    }
                 }
                 blk.counters[3] = e.offset_accesses;
                 blk.evaluations = local.evaluations;
@@ -537,8 +620,8 @@ inline void Run(const Args& args, Result& res) {
                "over 256x256 values; mov ##imm/push/pop instruction paths for 64 values x 8 states; icr's own instructions (mov #imm5 for all 32 "
                "immediates, mov r0,icr, mov icr,a0) at loop depths 0,1,2,4; for every opcode whose form selects a register through ar/arp: all 4 (x4) offset "
                "codes written into the selected slot of the words with decoys elsewhere - the addresses the instruction touches next to the selected "
-               "register are that register's value or its value displaced by exactly that slot's offset (the interpreter's reading of the word; steps and "
-               "register selection are C10's generic layer)";
+               "register are that register's value or its value displaced by exactly that slot's offset (the interpreter's reading of the word); and with step code k in the slots the "
+               "register ends where the directly spelled modr rN <step k> leaves it (codes 0..5, linear and modulo, both modes)";
     res.bound = "19 words x 65536 values x 9 states; full state alphabet x 8 values; aliased pairs x 65536 value pairs";
     res.assumptions = {"the layout table in engines/isa/c20_words.h is transcribed from the TeakLite/Teak register layouts (and matches the flag legends of test_verifier)",
                        "agreement of the annotated disassembler with the ar/arp layout is checked by the text engine (C05/C02); the generator's reading by C01 clause 2"};
